@@ -130,11 +130,14 @@ def merge_cases(ctx, tier, want='any'):
     big = sigs.U(('a', 'b', 'c'), 3)
     big4 = sigs.U(('a', 'b', 'c', 'd'), 3)
     n_random = {'quick': 30000, 'thorough': 3000000}[tier] // ctx.nshards
+    big44 = sigs.U(('a', 'b', 'c', 'd'), 4) if tier == 'thorough' else None     # 35 371 parameter lists
     for i in range(n_random):
         if ctx.out_of_time('random merges'):
             break
         r = rnd.random()
         pool = big4 if r > 0.8 else big
+        if big44 is not None and r > 0.93:
+            pool = big44
         k = 2 if r < 0.45 else (3 if r < 0.9 else 4)
         case = tuple(rnd.choice(pool) for _ in range(k))
         if want == 'aligned' and not oracle.name_aligned([sigs.shape_key(p) for p in case]):
